@@ -100,23 +100,41 @@ def run(tier):
                       "slots": rng.choice([6, 16, 40]), "max": rng.choice([3000, 70000, 400000]), "reps": reps,
                       "base": reps // 2, "os": rng.choice("bad"), "rand_place": i % 2 == 1, "classes": small,
                       "src": "churn"})
+    # multi-threaded: T threads share one allocator behind tiny-std's own Mutex (lock, one call,
+    # unlock - the composition GlobalDlMalloc uses); each thread repeats a TLC-generated workload
+    n_mt = 12 if quick else 150
+    for i in range(n_mt):
+        T = rng.choice([2, 3, 4])
+        plans.append({"kind": "mt", "threads": [[classes[c - 1] for c in rng.choice(used)] for _ in range(T)],
+                      "free": rng.choice(["fifo", "lifo"]), "reps": reps, "base": reps, "os": rng.choice("bad"),
+                      "rand_place": i % 3 == 0, "seed": rng.randrange(1, 1 << 40), "src": "multi-threaded"})
+    # (base = reps: SteadyState is not judged on multi-threaded runs - the interleaving, hence the
+    # concurrent demand and the allocation order, differs from repetition to repetition, so a
+    # repetition is not a repetition of the same workload; Envelope, NoGratuitousMap, ReleaseOnce are)
     if not quick:
         plans.append({"kind": "churn", "seed": rng.randrange(1, 1 << 40), "period": 5000, "slots": 64, "max": 300000,
                       "reps": 200, "base": 100, "os": "b", "rand_place": True, "classes": small, "watchdog": 900,
                       "src": "churn-1e6"})
 
-    # debug build (assertions on) for the TLC workloads, release for everything
-    jobs = [("debug", bin_dbg, plans[:n_tlc] if quick else plans), ("release", bin_rel, plans[n_tlc:] if quick else plans)]
+    # debug build (assertions on) for the TLC workloads, release build for the rest (quick) /
+    # for everything (thorough); processed in chunks so that memory stays bounded
+    jobs = [("debug", bin_dbg, plans[:n_tlc]), ("release", bin_rel, plans[n_tlc:] if quick else plans)]
+    CH = 1200
+    work = [(build, bindir, pl[i:i + CH], i) for build, bindir, pl in jobs for i in range(0, len(pl), CH)]
     t0 = time.time()
-    drv = [(build, pl, pool.submit(A.run_driver, chk, bindir, pl, build)) for build, bindir, pl in jobs]
     stats = {"runs": 0, "events": 0, "ops": 0, "os_map_requests": 0, "os_releases": 0, "repetitions": 0,
              "max_footprint_over_peak_live": 0.0, "runs_with_transient_after_rep2": 0, "crashes": 0}
     nontrivial = set()
-    for build, pl, fut in drv:
-        events, crashes = fut.result()
+    nxt = pool.submit(A.run_driver, chk, work[0][1], work[0][2], "%s_%d" % (work[0][0], work[0][3])) if work else None
+    for wi, (build, bindir, pl, off) in enumerate(work):
+        events, crashes = nxt.result()
+        if wi + 1 < len(work):
+            w2 = work[wi + 1]
+            nxt = pool.submit(A.run_driver, chk, w2[1], w2[2], "%s_%d" % (w2[0], w2[3]))
         t1 = time.time()
-        runs, bad = A.judge(chk, events, build, procs=6, cfg=cfg)
-        core.log("%s build: driver done at +%.1fs (%d plans, %d events), TLC judge %.1fs" % (build, t1 - t0, len(pl), len(events), time.time() - t1))
+        runs, bad = A.judge(chk, events, "%s_%d" % (build, off), procs=6, cfg=cfg)
+        core.log("%s build, plans %d..%d: driver done at +%.1fs (%d events), TLC judge %.1fs" % (
+            build, off, off + len(pl), t1 - t0, len(events), time.time() - t1))
         A.report(chk, runs, bad, pl, A.C04_INV, k, build)
         stats["crashes"] += len(crashes)
         stats["runs"] += len(runs)
@@ -148,9 +166,11 @@ def run(tier):
                 stats["runs_with_transient_after_rep2"] += 1
             if maps_after_first or releases:
                 nontrivial.add(A.history_key(pl[r[0]["plan"]]))
-        for r in runs[:1]:
-            chk.sample({"plan": {x: v for x, v in pl[r[0]["plan"]].items() if x != "classes"},
-                        "footprint_at_repetition_marks": [e["fp"] for e in r if e["ev"] == "rep"]})
+        if wi == 0:
+            for r in runs[:1]:
+                chk.sample({"plan": {x: v for x, v in pl[r[0]["plan"]].items() if x != "classes"},
+                            "footprint_at_repetition_marks": [e["fp"] for e in r if e["ev"] == "rep"]})
+        del events, runs
     chk.evaluations = stats["repetitions"]
     chk.nontrivial = len(nontrivial)
 
@@ -169,23 +189,42 @@ def run(tier):
                 "(AllocGen) enumerates all %d allocation orders of <= %d blocks over %d size classes (x 3 free orders); %d of them (quick: all "
                 "with fewer blocks + a sample of the longest; thorough: all) are run; each "
                 "workload is run %d times (a sample 200 times) on the real Dlmalloc over the simulated OS with rotating placement, plus "
-                "boundary-size workloads and churn workloads; every step is judged by TLC (baseline = first half of the "
+                "boundary-size workloads, churn workloads and %d multi-threaded runs (2-4 threads through tiny-std's Mutex); every step is judged by TLC (baseline = first half of the "
                 "repetitions). evaluations = repetition marks judged; non-trivial = distinct workloads in which the OS was asked "
-                "for memory after the first repetition or memory was handed back" % (len(seqs), W, len(classes), len(used), reps))
+                "for memory after the first repetition or memory was handed back" % (len(seqs), W, len(classes), len(used), reps, n_mt))
     chk.assumptions = [
         "footprint = bytes held from the simulated OS (exact); 'arbitrarily large N' is N = %d (sample: N = 200): no model of the allocator's internal state shows periodicity yet (DlHeap.tla is future work)" % reps,
         "SteadyState: memory still held at a repetition mark after the first N/2 repetitions <= the most ever held during the first N/2 repetitions + one granularity (a heap that is trimmed after some repetitions and not after others - the OS placed a segment differently - is not growing); runs whose marks after repetition 2 exceed the marks of repetitions 1..2 by more than a granularity are counted as runs_with_transient_after_rep2, not judged",
         "Envelope (workload runs only): footprint <= 2 x peak padded demand + 2 x trim threshold, padded demand of a block = size + 2 x align + 256 + granularity",
         "NoGratuitousMap: an OS request is gratuitous if size + 2 x align + 256 bytes fit into one block-free extent of a single OS-granted piece",
         "never trimming alone does not violate the property as stated (held memory stays bounded by peak demand) and is not flagged",
-        "single-threaded: the Mutex<Dlmalloc> global-allocator wrapper exists only under feature global-allocator, which cannot be enabled in a std-linked harness",
+        "multi-threaded runs: 2-4 std threads share one Dlmalloc behind tiny_std::sync::Mutex (lock, one call, unlock; the recorder sits in the same critical section so the log order is the execution order) - the composition of the private GlobalDlMalloc wrapper, which itself is only compiled with feature global-allocator and cannot be enabled in a std-linked harness; thread interleavings are whatever the OS scheduler produces (not controlled), therefore SteadyState is not judged on these runs (the concurrent demand differs between repetitions), Envelope / NoGratuitousMap / ReleaseOnce are",
     ]
     chk.extra.update({"design_model": {"states": res.distinct, "action_coverage": {a: cov.get(a, 0) for a in A.ACTIONS + ["RepMark"]},
                                        "probes": probes},
-                      "tlc_generated_workloads": n_tlc, "plans": len(plans), "driver": stats, "code_constants": k,
+                      "tlc_generated_workloads": n_tlc, "plans": len(plans), "multi_threaded_runs": n_mt, "driver": stats, "code_constants": k,
                       "invariants": A.C04_INV, "workload_classes": classes})
     return chk.finish()
 
 
 def replay(path):
     return A.replay_file(path, PID)
+
+
+def selftest():
+    """anti-vacuity of the whole loop: (1) corrupted copies of an accepted trace must be rejected
+    by the TLC judge (part of every run, see selftest_judge / the probes of the design model);
+    (2) a stored property-breaking patch must make the check exit 1 and a stored behaviour-
+    preserving patch must leave it at exit 0 (scratch worktree, never /repo)."""
+    import os
+    import subprocess
+    ok = True
+    for name, want in (('C04-large-requests-ignore-tree-bins', 0), ('C04-benign-granularity-128k', 1)):
+        patch = os.path.join(core.VERIF, "seeded", name, "patch.diff")
+        p = subprocess.run([os.path.join(core.VERIF, "bin", "mutant-test"), patch, PID], stdout=subprocess.PIPE,
+                           stderr=subprocess.STDOUT, text=True)
+        # mutant-test exits 0 when a VIOLATION was reported, 1 otherwise
+        good = p.returncode == want
+        print("selftest %s: %s (mutant-test rc=%d, expected %d)" % (name, "ok" if good else "FAILED", p.returncode, want))
+        ok = ok and good
+    return 0 if ok else 2
